@@ -7,6 +7,7 @@ for pid in $props; do
   [ -f harness/props/$(echo $pid | tr C c).py ] || { echo "$pid: no check yet"; continue; }
   for d in seeded/${pid}_*; do
     [ -f $d/patch.diff ] || continue
+    if [ -z "${SWEEP_FORCE:-}" ] && grep -q "^$(basename $d)	.*exit=1" seeded/RESULTS.tsv 2>/dev/null; then continue; fi
     out=$(VERIF_NPROC=${VERIF_NPROC:-8} harness/try_seed_wt.sh $d/patch.diff $pid quick 2>&1)
     rc=$(echo "$out" | grep -o 'exit=[0-9]*' | tail -1)
     nv=$(echo "$out" | grep -c '^VIOLATION')
